@@ -12,8 +12,8 @@ import (
 
 func init() {
 	register(&core.Property{
-		ID:    "C02",
-		Title: "Running HAProxy never diverges from the on-disk config after runtime updates",
+		ID:          "C02",
+		Title:       "Running HAProxy never diverges from the on-disk config after runtime updates",
 		Explanation: "Static decision of the conditions under which `no reload` may be concluded: (1) every section of the model held by haproxy.config is compared before the updater reports success; (2) the compare-by-copy sites mask exactly the fields that runtime commands can express (a masked rendered field would change on disk and never in the process); (3) every socket exchange is validated: the error of execCommand and every response line gate the `true` result, and no caller discards an exec/check result; (4) every command sent is counted and files are rewritten iff the update failed or commands were sent; (5) a failed dynamic update always reloads, after padding slots; (6) slots are only filled after the capacity check; an old slot is treated as free only when it is not enabled; the runtime socket is opened per command batch; (7) the model is only touched under the services' model mutex.",
 		NotDecided: []string{
 			"replaying the commands on HAProxy and comparing with the rendered file",
